@@ -542,6 +542,18 @@ func runC19(c *Ctx) {
 		c.Fail("NETRC-LOOKUP", "netrc.GetMachineForNameAndFilePath", token.NoPos, "not found")
 	}
 	c19ProviderStateless(c)
+	c19SourceOrder(c)
+	{
+		var cp []*packages.Package
+		for _, rel := range []string{"private/pkg/connectclient", "private/bufpkg/bufconnect", "private/buf/bufcli", "private/pkg/netrc"} {
+			if q := c.P.Pkg(rel); q != nil {
+				cp = append(cp, q)
+			}
+		}
+		ruleSharedAppend(c, "SHARED-APPEND", cp)
+		c.Rule("R-ERRUSE", "error results are consumed in the packages that build the authenticated client", 20)
+		ruleErrUse(c, "R-ERRUSE", cp, func(string) (bool, string) { return true, "" }, c15AllowedErrUse)
+	}
 }
 
 // c19ExactMatch inspects the uses of RemoteToken's address parameter in one implementation.
